@@ -13,7 +13,7 @@
 //!       random worlds and deeper random request paths (plus every file and directory of each world under its
 //!       spellings); stdout: one record per call {"w","h","route","uri","st","id","ct","loc","canary"} for TLC
 //!       (Trace_StaticFs), the worlds go to <worlds-out.ndjson>.
-//!   staticfs e2e <scratch-dir> <worlds-out.ndjson>
+//!   staticfs e2e <scratch-dir> <worlds-out.ndjson> <world-index>
 //!       a real App on loopback (`/static/*` -> serve_dir, `/*` -> serve_as_file_path) serves one random world; every
 //!       file and directory, a list of traversal attempts and a file of several MiB fetched by a client that starts
 //!       reading 0.4 - 1 s late, over real sockets; records as above (plus "late_ms").
@@ -713,20 +713,43 @@ fn fetch(port: u16, target: &[u8], late_ms: u64) -> Option<(u16, String, Vec<u8>
     Some((st, ct, loc, body))
 }
 
-fn e2e<B: Backend>(scratch: &str, worlds_out: &str) {
+/// set by a backend's server thread when App::run returns (it only returns on a bind error)
+pub static SERVER_FAILED: std::sync::atomic::AtomicBool = std::sync::atomic::AtomicBool::new(false);
+
+fn e2e<B: Backend>(scratch: &str, worlds_out: &str, ix: usize) {
     use std::io::Write;
+    use std::sync::atomic::Ordering::SeqCst;
     let mut rng = Rng::from_env();
-    let (root, nodes) = gen_world(&mut rng, 1);                 // world 1 carries the 3 MiB file
+    // a world with the 3 MiB file (index = 1 mod 3) and a fair number of nodes
+    let (mut root, mut nodes) = gen_world(&mut rng, 1);
+    for _ in 0..50 {
+        if nodes.len() >= 40 { break; }
+        let (r, n) = gen_world(&mut rng, 1);
+        root = r;
+        nodes = n;
+    }
     let nodes_json: Vec<Value> = nodes.iter().map(|n| json!({"p": n.p, "k": n.k, "id": n.id})).collect();
     let mut wf = std::fs::File::create(worlds_out).expect("worlds out");
-    writeln!(wf, "{}", json!({"world": 1, "root": root, "nodes": nodes_json})).unwrap();
-    let w = build_world(scratch, 1, root, nodes);
-    let port = { let l = std::net::TcpListener::bind("127.0.0.1:0").expect("bind"); l.local_addr().unwrap().port() };
-    if !B::spawn_server(leak(w.root_dir.clone()), port) { return; }
+    writeln!(wf, "{}", json!({"world": ix, "root": root, "nodes": nodes_json})).unwrap();
+    let w = build_world(scratch, ix, root, nodes);
+    let dir = leak(w.root_dir.clone());
+    let mut port = 0u16;
     let mut up = false;
-    for _ in 0..600 {
-        if std::net::TcpStream::connect(("127.0.0.1", port)).is_ok() { up = true; break; }
-        std::thread::sleep(std::time::Duration::from_millis(100));
+    'ports: for _ in 0..8 {
+        // (another process may take the port between the probe and the App's bind: then App::run fails and we retry)
+        port = { let l = std::net::TcpListener::bind("127.0.0.1:0").expect("bind"); l.local_addr().unwrap().port() };
+        SERVER_FAILED.store(false, SeqCst);
+        if !B::spawn_server(dir, port) { return; }
+        for _ in 0..1200 {
+            if SERVER_FAILED.load(SeqCst) { continue 'ports; }
+            if std::net::TcpStream::connect(("127.0.0.1", port)).is_ok() {
+                std::thread::sleep(std::time::Duration::from_millis(50));
+                if SERVER_FAILED.load(SeqCst) { continue 'ports; }
+                up = true;
+                break 'ports;
+            }
+            std::thread::sleep(std::time::Duration::from_millis(100));
+        }
     }
     if !up { eprintln!("staticfs e2e: the server did not come up"); std::process::exit(2); }
     let inside: Vec<&Node> = w.nodes.iter().filter(|n| is_prefix(&w.root_names, &n.p) && n.p.len() > w.root_names.len()).collect();
@@ -742,7 +765,7 @@ fn e2e<B: Backend>(scratch: &str, worlds_out: &str) {
         targets.push(([b"/".to_vec(), raw].concat(), if big { 400 } else { 0 }));
         if big { targets.push(([b"/static/".to_vec(), lib, b"?late=1".to_vec()].concat(), 1000)); }
     }
-    let top = PathBuf::from(scratch).join("w1");
+    let top = PathBuf::from(scratch).join(format!("w{}", ix));
     let canary_abs = names_to_path(&top, &[&w.root_names[..w.root_names.len() - 1], &[b"canary.txt".to_vec()][..]].concat());
     let canary_abs = canary_abs.to_str().unwrap().as_bytes().to_vec();
     for t in ["/static/", "/static", "/", "/static/../canary.txt", "/static/%2e%2e/canary.txt", "/static/%2E%2e%2fcanary.txt", "/../canary.txt", "/..%2fcanary.txt",
@@ -770,7 +793,7 @@ fn e2e<B: Backend>(scratch: &str, worlds_out: &str) {
             }
             None => Got { st: 0, id: 0, ct: String::new(), loc: vec![], canary: false, panic: true },
         };
-        out_line(&json!({"w": 1, "h": h, "route": route, "uri": uri, "st": g.st, "id": g.id, "ct": g.ct, "loc": g.loc,
+        out_line(&json!({"w": ix, "h": h, "route": route, "uri": uri, "st": g.st, "id": g.id, "ct": g.ct, "loc": g.loc,
             "canary": g.canary || g.panic, "late_ms": late}));
     }
     let _ = std::fs::remove_dir_all(top);
@@ -799,7 +822,7 @@ pub fn main_with<B: Backend>() {
         Some("replay") if a.len() >= 3 => replay::<B>(&a[2], a.get(3).and_then(|s| s.parse().ok()).unwrap_or(8)),
         Some("random") if a.len() >= 6 => random::<B>(a[2].parse().unwrap(), a[3].parse().unwrap(), &a[4], &a[5]),
         Some("rerun") if a.len() >= 4 => rerun::<B>(&a[2], &a[3]),
-        Some("e2e") if a.len() >= 4 => e2e::<B>(&a[2], &a[3]),
+        Some("e2e") if a.len() >= 5 => e2e::<B>(&a[2], &a[3], a[4].parse().unwrap()),
         _ => {
             eprintln!("usage: staticfs replay <scratch> [threads] | random <worlds> <per-world> <scratch> <worlds-out> | rerun <scratch> <worlds-in>");
             std::process::exit(2)
